@@ -372,7 +372,9 @@ class OscMessageDispatcher(AbstractWrappingDispatcher):
 
     def __call__(self, msg, time, addr, recv_port):
         if msg[0] in self.active:
-            for func in self.active[msg[0]]:
+            # Responders may free or disable themselves when called (e.g.
+            # one_shot), the list must not change while it is iterated.
+            for func in self.active[msg[0]].copy():
                 fn.value(func, msg, time, addr, recv_port)
 
     def register(self):
@@ -392,7 +394,7 @@ class OscMessagePatternDispatcher(OscMessageDispatcher):
         pattern = msg[0]
         for key, funcs in self.active.copy().items():
             if _match_osc_address_pattern(pattern, key):
-                for func in funcs:
+                for func in funcs.copy():  # See OscMessageDispatcher.
                     fn.value(func, msg, time, addr, recv_port)
 
     def type_key(self):
